@@ -1563,3 +1563,109 @@ func ruleAnyXmlTags(p *Prog, r *Report) {
 		}
 	}
 }
+
+// ruleAddNewValLinear (WALK.progress clause, C12): addNewVal descends the new path once, one segment per step. A loop over the path
+// nested in another loop over the path is accepted only if it continues from where the outer loop stands: an inner loop that
+// starts at the head of the path (a range over path[:k], or a counter that enters the loop as the constant 0) visits segments the
+// outer loop has already consumed, so a value lands under a repeated prefix when a leading part of the path exists already.
+func ruleAddNewValLinear(p *Prog, r *Report) {
+	const rule = "WALK.progress"
+	fn := p.Fn("mxj.addNewVal")
+	if fn == nil {
+		r.Anchor(rule, "mxj.addNewVal")
+		return
+	}
+	var path *ssa.Parameter
+	for _, prm := range fn.Params {
+		if sl, ok := prm.Type().Underlying().(*types.Slice); ok && isStringType(sl.Elem()) {
+			path = prm
+		}
+	}
+	if path == nil {
+		r.Anchor(rule, "path parameter of mxj.addNewVal")
+		return
+	}
+	n := p.Name(fn)
+	var headers []*ssa.BasicBlock
+	for _, b := range fn.Blocks {
+		for _, pr := range b.Preds {
+			if b.Dominates(pr) {
+				headers = append(headers, b)
+				break
+			}
+		}
+	}
+	// where does a loop's walk over the path start? ("" = it does not index the path)
+	start := func(h *ssa.BasicBlock, body map[*ssa.BasicBlock]bool, inner map[*ssa.BasicBlock]bool) (string, bool) {
+		found, fromHead := "", false
+		for b := range body {
+			if inner != nil && inner[b] {
+				continue
+			}
+			for _, in := range b.Instrs {
+				ia, ok := in.(*ssa.IndexAddr)
+				if !ok {
+					continue
+				}
+				switch x := ia.X.(type) {
+				case *ssa.Parameter:
+					if x != path {
+						continue
+					}
+					found = p.Pos(ia.Pos())
+					// the counter: a phi of this loop's header; its value on the entering edge
+					if ph, ok := ia.Index.(*ssa.Phi); ok && ph.Block() == h {
+						for i, e := range ph.Edges {
+							if !body[h.Preds[i]] {
+								if k, ok := constInt(e); ok && k == 0 {
+									fromHead = true
+								}
+							}
+						}
+					}
+				case *ssa.Slice:
+					if x.X != ssa.Value(path) {
+						continue
+					}
+					found = p.Pos(ia.Pos())
+					if x.Low == nil {
+						fromHead = true
+					} else if k, ok := constInt(x.Low); ok && k == 0 {
+						fromHead = true
+					}
+				}
+			}
+		}
+		return found, fromHead
+	}
+	nLoops, bad := 0, ""
+	for _, ho := range headers {
+		outer := naturalLoop(ho)
+		for _, hi := range headers {
+			if hi == ho || !outer[hi] {
+				continue
+			}
+			inner := naturalLoop(hi)
+			if inner[ho] {
+				continue
+			}
+			if at, _ := start(ho, outer, inner); at == "" {
+				continue
+			}
+			at, fromHead := start(hi, inner, nil)
+			if at == "" {
+				continue
+			}
+			nLoops++
+			if fromHead {
+				bad = at
+			}
+		}
+	}
+	c := "no inner loop over the path restarts at its head"
+	if bad != "" {
+		r.Bad(rule, n, c, bad, "a loop over the path nested in the descent starts at the first segment again ("+bad+"): segments the outer loop has consumed are visited a second time, so the value is stored under a repeated prefix when the leading part of the new path already exists")
+		return
+	}
+	r.OK(rule, n, c, p.Pos(fn.Pos()), fmt.Sprintf("%d loops, %d nested loops over the path, none from its head", len(headers), nLoops))
+}
